@@ -330,9 +330,12 @@ ArcOk(ev) ==
            \* the image of a is then a itself
            gap(bb) == DySub(Dy1, VDot(a, bb))
            snapped(i, bb) == DyLe(gap(bb), DyPow2(4 - p)) /\ DyNear(img[i], a[i], t)
+           \* nearly opposite vectors (sin^2 <= 16 u) may be snapped to a half turn about an arbitrary axis: the image of a is then -a
+           oppsnap(i, bb) == /\ DyIsNeg(VDot(a, bb)) /\ DyLe(Lagrange(a, bb), DyMul(DyPow2(4 - p), DyMul(VSq(a), VSq(bb))))
+                             /\ DyNear(img[i], DyNeg(a[i]), t)
            lane(i, d, bb) == \/ DyLe(DySq(d), DySq(t))
                           \/ (DyIsPos(w1(bb)) /\ DyLe(DyMul(DySq(d), w1(bb)), DySq(DyPow2(6 - p))))
-                          \/ snapped(i, bb)
+                          \/ snapped(i, bb) \/ oppsnap(i, bb)
            hits(bb) == \A i \in 1..3 : lane(i, DySub(img[i], bb[i]), bb) IN
        /\ DyNear(VSq(q), Dy1, t)
        /\ IF ev.colinear = 1 THEN hits(b) \/ hits(VNeg(b)) ELSE hits(b)
